@@ -253,7 +253,9 @@ impl<
 
         // First phase: we build an inventory for each one out of ones_per_inventory.
         for (i, word) in bits.as_ref().iter().copied().enumerate() {
-            let ones_in_word = word.count_ones() as usize;
+            // Bits beyond the length (in the last word, or in further words of
+            // the backend) are arbitrary, so they must not be counted
+            let ones_in_word = (word.count_ones() as usize).min(num_ones - past_ones);
 
             while past_ones + ones_in_word > next_quantum {
                 let in_word_index = word.select_in_word(next_quantum - past_ones);
